@@ -1,8 +1,10 @@
-// D45 -- two public members of Value cannot be instantiated (the class is a template, so the
+// D45 -- three public members of Value cannot be instantiated (the class is a template, so the
 // errors only show when somebody calls them):
 //   Value::End()              : "VItem *item = object_.End();" converts const VItem* to VItem*
 //   Value::IsPointerToValue() : returns isPtrValue(), which is declared "void isPtrValue() noexcept"
 //                               (non-const, void) -- called from a const member
+//   Value::Storage()          : non-const, calls value_->Storage() through the const Value *value_
+//                               ("passing const Value as this discards qualifiers")
 // This file does not COMPILE against /repo (that is the defect); with the patch it compiles,
 // runs and exits 0.
 // g++ -std=c++17 -I/repo/Include D45_end_and_ispointer_do_not_compile.cpp -o d45 && ./d45
@@ -16,7 +18,8 @@ int main() {
     a += 2;
     Value<char> p;
     p.SetPointerToValue(&a);
-    bool ok = (a.End() == a.First() + 2) && p.IsPointerToValue() && !a.IsPointerToValue();
+    bool ok = (a.End() == a.First() + 2) && p.IsPointerToValue() && !a.IsPointerToValue() &&
+              (a.Storage() == a.First()) && (p.Storage() == a.First());
     puts(ok ? "fixed" : "DEFECT");
     return ok ? 0 : 1;
 }
